@@ -88,9 +88,12 @@ def run_one(mu, slot):
                 ls = s.split('\n')
                 if mu['line'] >= len(ls) or ls[mu['line']] != mu['old']:
                     return dict(id=mu['id'], ok=False, status='line %d no longer reads as recorded (mutant out of date)' % (mu['line'] + 1), keys=[])
-                ls[mu['line']] = mu['new']
-                for k in range(mu['line'] + 1, mu.get('end', mu['line']) + 1):
-                    ls[k] = '// (deleted)'
+                if 'block' in mu:
+                    ls[mu['line']:mu['end'] + 1] = mu['block']
+                else:
+                    ls[mu['line']] = mu['new']
+                    for k in range(mu['line'] + 1, mu.get('end', mu['line']) + 1):
+                        ls[k] = '// (deleted)'
                 s = None
                 open(path, 'w').write('\n'.join(ls))
             elif mu['id'].startswith('ctrl-rename') and s.count(mu['old']) >= 1:
